@@ -796,6 +796,10 @@ class ExprMixin:
         body = z3.And(rng, eb == x) if cond is None else z3.And(rng, cond, eb == x)
         st.assume(z3.ForAll([x], seq_contains(r, x) == z3.Exists([i], body)))
         self._assume_distinct(st, r)
+        binders = st.notes.get("binders") or []
+        widx = z3.Function(fresh_name("swidx"), *[b.sort() for b in binders], V, IntS)
+        wi = lambda y: widx(*binders, y)
+        st.assume(z3.ForAll([x], z3.Implies(seq_contains(r, x), z3.And(0 <= wi(x), wi(x) < Q.Length(r), Q.At(r, wi(x)) == x)), patterns=[seq_contains(r, x)]))
         return Sym("set", r, Spec("set", self.static_spec(elt)))
 
     def e_DictComp(self, node, st):
